@@ -1,7 +1,7 @@
 (* Props/C15.v -- statements claimed for C15 (function transfer and smoothing), about Model/TriaFunc.v over R. *)
 From Coq Require Import List Arith Reals.
 From LaPyV Require Import Base.Scalar Base.Vec3 Base.ListAux Base.Sparse Model.TetMesh Model.TriaAdj Model.TriaOrient
-  Model.Fem Model.TriaGeom Model.TriaFunc Proofs.SparseP Proofs.TriaGeomP Proofs.TriaFuncP Proofs.TfuncAreasP.
+  Model.Fem Model.TriaGeom Model.TriaFunc Proofs.SparseP Proofs.TriaGeomP Proofs.TriaFuncP Proofs.TfuncAreasP Proofs.TfuncLinearP.
 Import ListNotations.
 Open Scope R_scope.
 
@@ -71,3 +71,10 @@ Theorem C15_weighted_constant_one_maps_to_vertex_areas : forall v ts,
   tfunc_to_vfunc_col Rops (S (maxn (tri_flat ts))) v ts true (repeat 1 (length ts)) = vertex_areas Rops v ts.
 Proof. exact weighted_one_maps_to_vertex_areas. Qed.
 Print Assumptions C15_weighted_constant_one_maps_to_vertex_areas.
+
+(* map_vfunc_to_tfunc is linear in the vertex function, on every triangle of every mesh *)
+Theorem C15_vfunc_to_tfunc_is_linear : forall ts (f g h : list R) al be k a b c, nth_error ts k = Some (a, b, c) ->
+  (forall i, nth i h 0 = al * nth i f 0 + be * nth i g 0) ->
+  nth k (vfunc_to_tfunc_col Rops ts h) 0 = al * nth k (vfunc_to_tfunc_col Rops ts f) 0 + be * nth k (vfunc_to_tfunc_col Rops ts g) 0.
+Proof. exact vfunc_to_tfunc_linear. Qed.
+Print Assumptions C15_vfunc_to_tfunc_is_linear.
